@@ -293,6 +293,96 @@ def c16_retree_crashes():
     report("c16_retree_crashes", any("RAISES" in v or "does not" in v or "re-parse raises" in v for v in res.values()) or res["[]"].startswith("ok"), str(res))
 
 
+def _schema(model):
+    import json
+    rc, out, err, exc, tmp = run_main(model, "jsonschema")
+    try:
+        if rc != 0:
+            return None, err or repr(exc)
+        return json.loads((tmp / "out" / "schema.json").read_text()), None
+    finally:
+        shutil.rmtree(tmp)
+
+
+@case
+def c11_dangling_ref_abstract_without_descendants():
+    model = """
+    @abstract
+    class Lonely(DBC):
+        pass
+
+    class Something(DBC):
+        x: Optional["Lonely"]
+        def __init__(self, x: Optional["Lonely"] = None) -> None:
+            self.x = x
+    """
+    schema, err = _schema(model)
+    if schema is None:
+        report("c11_dangling_ref_abstract_without_descendants", False, "rejected: " + err.strip()[-200:])
+        return
+    ref = schema["definitions"]["Something"]["properties"]["x"]["$ref"].split("/")[-1]
+    report("c11_dangling_ref_abstract_without_descendants", ref not in schema["definitions"], f"$ref to {ref!r}; definitions: {sorted(schema['definitions'])}")
+
+
+BYTES_MODEL = """
+@invariant(lambda self: LEN_COND, "bytes length")
+class Something(DBC):
+    b: bytearray
+    def __init__(self, b: bytearray) -> None:
+        self.b = b
+"""
+
+
+@case
+def c11_bytes_max_length_in_bytes():
+    import base64
+    import jsonschema
+    schema, err = _schema(BYTES_MODEL.replace("LEN_COND", "len(self.b) <= 3"))
+    assert schema is not None, err
+    sub = dict(schema["definitions"]["Something"])
+    doc = {"b": base64.b64encode(b"abc").decode()}
+    try:
+        jsonschema.validate(doc, sub)
+        report("c11_bytes_max_length_in_bytes", False, f"3 bytes accepted: {sub['properties']['b']}")
+    except jsonschema.ValidationError as ex:
+        report("c11_bytes_max_length_in_bytes", True, f"valid 3-byte value {doc} rejected: {ex.message}")
+
+
+@case
+def c12_bytes_min_length_in_bytes():
+    import base64
+    import jsonschema
+    schema, err = _schema(BYTES_MODEL.replace("LEN_COND", "len(self.b) >= 4"))
+    assert schema is not None, err
+    sub = dict(schema["definitions"]["Something"])
+    doc = {"b": base64.b64encode(b"abc").decode()}
+    try:
+        jsonschema.validate(doc, sub)
+        report("c12_bytes_min_length_in_bytes", True, f"3-byte value {doc} accepted although at least 4 bytes are required: {sub['properties']['b']}")
+    except jsonschema.ValidationError as ex:
+        report("c12_bytes_min_length_in_bytes", False, f"rejected: {ex.message}")
+
+
+@case
+def c12_model_type_not_required():
+    import jsonschema
+    model = """
+    @serialization(with_model_type=True)
+    class Something(DBC):
+        x: int
+        def __init__(self, x: int) -> None:
+            self.x = x
+    """
+    schema, err = _schema(model)
+    assert schema is not None, err
+    sub = dict(schema["definitions"]["Something"])
+    try:
+        jsonschema.validate({"x": 1}, sub)
+        report("c12_model_type_not_required", True, f"document without modelType accepted; required={sub.get('required')}")
+    except jsonschema.ValidationError as ex:
+        report("c12_model_type_not_required", False, f"rejected: {ex.message}")
+
+
 def main():
     ap = argparse.ArgumentParser()
     ap.add_argument("--repo", default="/repo")
